@@ -84,7 +84,7 @@ func main() {
 		{"C09", []string{"clover.DB.countCollection", "clover.DB.Exists", "clover.DB.FindFirst", "clover.DB.Count", "clover.DB.FindAll", "clover.DB.IterateDocs", "clover.DB.ForEach",
 			"clover.DB.FindById", "clover..getDocumentById", "clover.DB.getCollectionSize"}},
 		{"C17", []string{"index.rangeIndex.encodeRange", "index.rangeIndex.IterateRange", "index.rangeIndex.Iterate"}},
-		{"C16 C01", []string{"query.NotCriteria.Satisfy", "query.BinaryCriteria.Satisfy", "query.UnaryCriteria.Satisfy", "query..getFieldOrValue",
+		{"C16 C01", []string{"query.UnaryCriteria.Satisfy", "query..getFieldOrValue",
 			"query.UnaryCriteria.in", "query.UnaryCriteria.contains", "query.UnaryCriteria.like", "query..IsField",
 			"query..and", "query..or", "query..not", "query..newCriteria", "query.field.Neq", "query.field.NotExists", "query.field.In", "query.field.Contains", "query.field.Eq", "query.field.Exists", "query.field.IsNil", "query.field.IsTrue", "query.field.IsFalse", "query.field.IsNilOrNotExists", "query.field.Gt", "query.field.GtEq", "query.field.Lt", "query.field.LtEq", "query.field.Like", "query..Field", "query.NotCriteria.Not", "query.NotCriteria.And", "query.NotCriteria.Or", "query.BinaryCriteria.Not", "query.BinaryCriteria.And", "query.BinaryCriteria.Or", "query.UnaryCriteria.Not", "query.UnaryCriteria.And", "query.UnaryCriteria.Or", "query.Query.Where", "query.Query.MatchFunc", "query..NewQuery", "query.Query.copy",
 			"clover.CriteriaNormalizeVisitor.VisitUnaryCriteria", "clover.CriteriaNormalizeVisitor.VisitBinaryCriteria", "clover.CriteriaNormalizeVisitor.VisitNotCriteria",
@@ -140,7 +140,7 @@ func main() {
 	// same passes, one that does not breaks the proof
 	translated := []string{"index.Range.IsEmpty", "index.Range.IsNil", "index.Range.Intersect", "internal..compareInt64", "internal..compareUint64",
 		"util..BoolToInt", "clover.skipLimitNode.Callback", "clover..unaryCriteriaToRange",
-		"query.UnaryCriteria.compare", "query.UnaryCriteria.eq", "query.UnaryCriteria.exist"}
+		"query.UnaryCriteria.compare", "query.UnaryCriteria.eq", "query.UnaryCriteria.exist", "query.BinaryCriteria.Satisfy", "query.NotCriteria.Satisfy"}
 	wanted := map[string]bool{}
 	for _, f := range translated {
 		wanted[f] = true
